@@ -74,3 +74,52 @@ def fx_inF(fmt, x):
 def fx_ord(fmt, xr):
     """ordinal of a finite member: the signed value in units of 2^(nmin+1)"""
     return sgn(xr._s, val_at(xr, fx_expmin(fmt)))
+
+
+# ---------------------------------------------------------------------------
+# MPSFloatFormat(pmax, emin, enable_nan, enable_inf): floating point with pmax digits and
+# gradual underflow.  Finite members: +/-0 and every (-1)^s * C * 2^E with E >= expmin
+# (= emin - pmax + 1), 0 < C < 2^pmax.  The canonical pair (E, C) of a member has
+# E = max(e - pmax + 1, expmin) (so C >= 2^(pmax-1) whenever E > expmin) and its ordinal is
+# (E - expmin) * 2^(pmax-1) + C: subnormals count 1 .. 2^(pmax-1)-1, then every binade holds
+# 2^(pmax-1) members.
+
+def mps_expmin(fmt):
+    return fmt.emin - fmt.pmax + 1
+
+
+def fits_p(c, p):
+    """c = m * 2^t with bl(m) <= p (the significant digits of c fit in p digits)"""
+    over = bl(c) - p
+    return True if over <= 0 else fmod(c, pow2(over)) == 0
+
+
+def mps_fin_member(fmt, xr):
+    return xr._c == 0 or (fits_p(xr._c, fmt.pmax) and mult_of(xr, mps_expmin(fmt)))
+
+
+def mps_inF(fmt, x):
+    return ite(x_isnan(x), fmt.enable_nan, ite(x_isinf(x), fmt.enable_inf, mps_fin_member(fmt, real_of(x))))
+
+
+def mps_canon_exp(fmt, xr):
+    """exponent of the canonical representation of a non-zero member"""
+    en = e_of(xr) - fmt.pmax + 1
+    return en if en >= mps_expmin(fmt) else mps_expmin(fmt)
+
+
+def mps_ord_mag(fmt, xr):
+    """ordinal of |x| for a finite member x"""
+    E = mps_canon_exp(fmt, xr)
+    return ite(xr._c == 0, 0, (E - mps_expmin(fmt)) * pow2(fmt.pmax - 1) + val_at(xr, E))
+
+
+def mps_ord(fmt, xr):
+    return sgn(xr._s, mps_ord_mag(fmt, xr))
+
+
+def mps_canonical(fmt, xr):
+    """(s, exp, c) is the canonical representation of a finite member"""
+    return ite(xr._c == 0, xr._exp == mps_expmin(fmt),
+               xr._exp >= mps_expmin(fmt) and xr._c < pow2(fmt.pmax)
+               and (xr._exp == mps_expmin(fmt) or xr._c >= pow2(fmt.pmax - 1)))
